@@ -14,7 +14,7 @@ ASSUMPTIONS = ["Python property objects without a setter raise AttributeError on
 
 
 def trees(tier):
-    return [("core", corpus.CORE), ("pairs", corpus.pairs(tier, corpus.seed(), 80)[0])]
+    return [("core", corpus.CORE), ("pairs", corpus.pairs(tier, corpus.seed(), 80 if tier == "quick" else None)[0])]
 
 
 def programs(tier):
@@ -34,7 +34,7 @@ def jobs(tier):
         if has_int_array(c["instrs"]):
             js.append(dict(name=f"array_kinds[{c['name']}]", fn="array_kinds", args=[corpus.closure(types, c["instrs"]), c, {"lens": [0, 1], "counts": [1, 2]}],
                            tree="core", collect_models=1))
-    _, ptypes, pcls = corpus.pairs(tier, corpus.seed(), 80)
+    _, ptypes, pcls = corpus.pairs(tier, corpus.seed(), 80 if tier == "quick" else None)
     pcfg = {"lens": [0, 1], "counts": [0, 1]}
     js += [dict(name=f"immutable[pairs:{c['name']}]", fn="immutable", args=[corpus.closure(ptypes, c["instrs"]), c, pcfg], tree="pairs", collect_models=1,
                 expect=["serializing the same instance twice yields identical bytes"]) for c in pcls]
